@@ -1,5 +1,7 @@
 import PlasVerif.Proofs.Escape
 import PlasVerif.Proofs.Cleanup
+import PlasVerif.Proofs.TemplateExpr
+import PlasVerif.Generated.Templates
 /-!
 # C12 — Rendered HTML never turns document text into markup
 
@@ -415,8 +417,19 @@ example : stripTags (renderSelf (pieceTemplates fun _ => [.lit [60, 98, 62, 84, 
   · simp [markupClosedL, markupClosed]
 
 /-- The clause as the property states it, for a given family of templates `T`: every tree without declared
-    markup displays exactly its text leaves.  For the real Jinja2/TAL templates this is NOT a theorem here
-    (template expansion is not modelled); it is carried by the document-level oracle `doc12`. -/
+    markup displays exactly its text leaves.  For the real template files this is NOT a theorem (it is false for
+    arbitrary `T`: `unescaping_template_breaks`).  Proved fragments: tag-only wrappers
+    (`render_displays_leaves_partial`), arbitrary sequences of closed literal output and content interpolations
+    (`render_piece_templates`), and — for the expression / filter layer of the real Jinja2 files — every
+    `{{ … }}` of the HTML5 templates that shows a text position is of a class that displays text as text
+    (`all_html5_interpolations_safe` over the regenerated table + `safe_interpolation_displays_text`).
+    Still missing: (1) that the *source kind* the translator assigns to an expression by its name (DOM node vs raw
+    string vs template data) is what the Python objects are at run time, and the control flow of the templates
+    (`{% if %}`, `tal:condition/repeat`, macros) — carried by the document-level oracle `doc12`; (2) the same
+    for the TAL expressions of the XHTML renderer, whose classes are proved safe in
+    `all_xhtml_expressions_safe` + `safe_tal_expression_displays_text` (decoding of attribute values only for
+    text without `'`: the Spec reader has no hexadecimal references); (3) interpolations listed as out of scope
+    in the tables (URL arguments, math sources, labels / form fields, generated numbers, help-system files). -/
 def render_displays_leaves_statement (T : Templates) : Prop :=
   ∀ n : RNode, n.flagged = false → textOf (renderSelf T n) = n.leaves
 
@@ -449,5 +462,160 @@ example :
       (.elem 0 [.text false (str "<a"), .elem 0 [.uni false [38]], .text false (str "&lt;")])) = str "<a&&lt;" := by
   refine (render_displays_leaves _ (fun _ => str "<span>") (fun _ => str "</span>") (fun _ _ => rfl) ?_ ?_ _ rfl).2
   all_goals intro _ b; simp [str, stripTags, stripTagsAux]
+
+
+/-! ### the expression / filter layer of the Jinja2 templates -/
+section TemplateExpressions
+open PlasVerif.Model.TemplateExpr PlasVerif.Proofs.TemplateExpr PlasVerif.Generated.Templates
+
+/-- Jinja2's `e` filter, on *any* string (raw text, or what other filters produced): the result cannot be read
+    as markup, contains no quote of either kind (safe inside an attribute value), and a reader decodes it back to
+    exactly the string — also when template output follows. -/
+theorem escape_filter_safe (x post : List Nat) :
+    NoMarkup (escape5 x) ∧ 34 ∉ escape5 x ∧ 39 ∉ escape5 x ∧ decode (escape5 x ++ post) = x ++ decode post :=
+  ⟨⟨(escape5_clean x).1, (escape5_clean x).2.1, refsOnly_escape5 x⟩, (escape5_clean x).2.2.1, (escape5_clean x).2.2.2,
+   decode_escape5_append x post⟩
+
+/-- the string that reaches the page's reader: for the classes ending in `e` whatever the earlier filters
+    produced (the text itself for a raw source, its tag-stripped form after `striptags`), else the text -/
+def displayed (i : Interp) (s : List Nat) : List Nat :=
+  match i.filts with
+  | [.esc] => base i.src s
+  | [.striptags, .esc] => striptagsWith decode (base i.src s)
+  | _ => s
+
+/-- Every interpolation of a syntactically safe class displays document text as text, for every string:
+    what it writes is free of markup, free of double quotes when it stands in an attribute value, and a reader
+    decodes it to `displayed` — the text itself for `{{ node }}` in element content and for `{{ raw | e }}`. -/
+theorem safe_interpolation_displays_text (i : Interp) (h : safe i = true) (hs : i.src ≠ .trusted) (s : List Nat) :
+    NoMarkup (emit decode i s) ∧ (i.pos = .attr → 34 ∉ emit decode i s) ∧ decode (emit decode i s) = displayed i s := by
+  obtain ⟨file, expr, src, filts, pos, sc⟩ := i
+  simp only at hs
+  have e5 := fun x => escape_filter_safe x []
+  cases src with
+  | trusted => exact absurd rfl hs
+  | rendered =>
+    match filts, pos, h with
+    | [], .text, _ =>
+      refine ⟨?_, ?_, ?_⟩
+      · simpa [emit, base] using escape_no_markup s
+      · intro h; cases h
+      · simpa [emit, base, displayed] using escape_roundtrip s
+    | [.striptags, .esc], p, _ =>
+      have := e5 (striptagsWith decode (textDefault false s))
+      refine ⟨?_, ?_, ?_⟩
+      · simpa [emit, applyFilt, base] using this.1
+      · intro _; simpa [emit, applyFilt, base] using this.2.1
+      · simpa [emit, applyFilt, base, displayed, decode_nil] using this.2.2.2
+  | raw =>
+    match filts, pos, h with
+    | [.esc], p, _ =>
+      have := e5 s
+      refine ⟨?_, ?_, ?_⟩
+      · simpa [emit, applyFilt, base] using this.1
+      · intro _; simpa [emit, applyFilt, base] using this.2.1
+      · simpa [emit, applyFilt, base, displayed, decode_nil] using this.2.2.2
+    | [.striptags, .esc], p, _ =>
+      have := e5 (striptagsWith decode s)
+      refine ⟨?_, ?_, ?_⟩
+      · simpa [emit, applyFilt, base] using this.1
+      · intro _; simpa [emit, applyFilt, base] using this.2.1
+      · simpa [emit, applyFilt, base, displayed, decode_nil] using this.2.2.2
+
+/-- exact fidelity for the two classes without `striptags`: the reader gets the document text itself -/
+theorem plain_classes_display_the_text (i : Interp) (h : safe i = true) (hs : i.src ≠ .trusted)
+    (hf : Filt.striptags ∉ i.filts) (s : List Nat) : decode (emit decode i s) = s := by
+  rw [(safe_interpolation_displays_text i h hs s).2.2]
+  obtain ⟨file, expr, src, filts, pos, sc⟩ := i
+  cases src with
+  | trusted => exact absurd rfl hs
+  | rendered =>
+    match filts, pos, h with
+    | [], .text, _ => rfl
+    | [.striptags, .esc], p, _ => simp at hf
+  | raw =>
+    match filts, pos, h with
+    | [.esc], p, _ => rfl
+    | [.striptags, .esc], p, _ => simp at hf
+
+/-- **Every interpolation of the HTML5 renderer's template files** that shows one of the property's text
+    positions belongs to a safe class (regenerated table of all `{{ … }}` of the current files: source kind,
+    filter chain, position; finite check by kernel evaluation). -/
+theorem all_html5_interpolations_safe : ∀ i ∈ interpolations, i.inScope = true → safe i = true := by
+  decide +kernel
+
+/-- non-vacuity: the table is not empty and contains interpolations of every safe class that is not `trusted` -/
+example : interpolations.length > 100 ∧
+    (interpolations.any fun i => i.inScope && i.src == .rendered && i.filts == [] && i.pos == .text) = true ∧
+    (interpolations.any fun i => i.inScope && i.src == .raw && i.filts == [.esc]) = true ∧
+    (interpolations.any fun i => i.inScope && i.src == .rendered && i.filts == [.striptags, .esc] && i.pos == .attr) = true := by
+  decide +kernel
+
+/-- why the classes are what they are (kernel-checked counterexamples, the shapes of D9, D15a, D16 and of a
+    double escape): a raw string without `e` becomes a tag; a rendered node in an attribute keeps its quote. -/
+theorem unsafe_classes_break :
+    60 ∈ emit decode ⟨"", "", .raw, [], .text, true⟩ [60, 98, 62] ∧
+    34 ∈ emit decode ⟨"", "", .rendered, [], .attr, true⟩ [34] ∧
+    decode (emit decode ⟨"", "", .rendered, [.esc], .text, true⟩ [60]) ≠ [60] := by
+  refine ⟨by decide, by decide, ?_⟩
+  have h : emit decode ⟨"", "", .rendered, [.esc], .text, true⟩ [60] = 38 :: 97 :: 109 :: 112 :: 59 :: [108, 116, 59] := by decide
+  rw [h, decode_amp_some (matchRef_amp _)]
+  simp
+
+/-! #### the TAL expressions of the XHTML templates -/
+
+/-- Every TAL expression of a syntactically safe class displays document text as text, for every string: as
+    element content what it writes is free of markup and decodes to exactly the text; as an attribute value it
+    contains no `<`, `>` or `"`, and decodes to the text (stated for text without `'`: simpleTAL writes `'` as the
+    hexadecimal reference `&#x27;`, which the Spec reader does not interpret). -/
+theorem safe_tal_expression_displays_text (i : TalInterp) (h : safeTal i = true) (hs : i.src ≠ .trusted)
+    (hm : i.mode ≠ .dropped) (s : List Nat) :
+    (i.pos = .content → NoMarkup (emitTal i s) ∧ decode (emitTal i s) = s) ∧
+    (i.pos = .attr → 60 ∉ emitTal i s ∧ 62 ∉ emitTal i s ∧ 34 ∉ emitTal i s ∧ (39 ∉ s → decode (emitTal i s) = s)) := by
+  obtain ⟨file, expr, src, via, mode, pos, sc⟩ := i
+  simp only at hs hm
+  cases src with
+  | trusted => exact absurd rfl hs
+  | rendered =>
+    cases mode <;> cases pos <;> cases via <;> simp [safeTal] at h hm <;>
+      exact ⟨fun _ => ⟨by simpa [emitTal, base] using escape_no_markup s, by simpa [emitTal, base] using escape_roundtrip s⟩,
+             fun h => by cases h⟩
+  | raw =>
+    cases mode <;> cases pos <;> cases via <;> simp [safeTal] at h hm
+    all_goals first
+      | exact ⟨fun _ => ⟨by simpa [emitTal, base, talEscapeText_eq] using escape_no_markup s,
+                         by simpa [emitTal, base, talEscapeText_eq] using escape_roundtrip s⟩, fun h => by cases h⟩
+      | (refine ⟨fun h => (by cases h), fun _ => ?_⟩
+         have c := talEscapeAttr_clean s
+         exact ⟨by simpa [emitTal, base] using c.1, by simpa [emitTal, base] using c.2.1, by simpa [emitTal, base] using c.2.2,
+                fun h39 => by simpa [emitTal, base] using decode_talEscapeAttr s h39⟩)
+
+/-- **Every TAL expression of the XHTML renderer's template files** (`tal:content`, `tal:replace`,
+    `tal:attributes`) that shows one of the property's text positions belongs to a safe class (regenerated
+    table; finite check by kernel evaluation). -/
+theorem all_xhtml_expressions_safe : ∀ i ∈ talInterpolations, i.inScope = true → safeTal i = true := by
+  decide +kernel
+
+example : talInterpolations.length > 100 ∧
+    (talInterpolations.any fun i => i.inScope && i.src == .rendered && i.pos == .content && !i.viaString) = true ∧
+    (talInterpolations.any fun i => i.inScope && i.src == .raw && i.pos == .attr) = true ∧
+    (talInterpolations.any fun i => i.inScope && i.src == .raw && i.pos == .content && i.mode == .text) = true := by
+  decide +kernel
+
+/-- why the TAL classes are what they are: a raw string inserted as `structure` becomes a tag (the shape of
+    D15b read the other way round), and a node put into an attribute — or through `string:` — is escaped twice. -/
+theorem unsafe_tal_classes_break :
+    60 ∈ emitTal ⟨"", "", .raw, false, .structure, .content, true⟩ [60, 98, 62] ∧
+    decode (emitTal ⟨"", "", .rendered, false, .text, .attr, true⟩ [60]) ≠ [60] ∧
+    decode (emitTal ⟨"", "", .rendered, true, .text, .content, true⟩ [60]) ≠ [60] := by
+  refine ⟨by decide, ?_, ?_⟩
+  · have h : emitTal ⟨"", "", .rendered, false, .text, .attr, true⟩ [60] = 38 :: 97 :: 109 :: 112 :: 59 :: [108, 116, 59] := by decide
+    rw [h, decode_amp_some (matchRef_amp _)]
+    simp
+  · have h : emitTal ⟨"", "", .rendered, true, .text, .content, true⟩ [60] = 38 :: 97 :: 109 :: 112 :: 59 :: [108, 116, 59] := by decide
+    rw [h, decode_amp_some (matchRef_amp _)]
+    simp
+
+end TemplateExpressions
 
 end PlasVerif.Properties.C12
